@@ -536,12 +536,13 @@ class Persona(object):
     def _f_nc_d_400_consumer_use_tax_wkst(self, b, inst, inp, r):
         if b == 'full_records':
             return self.ncv['full_records']
-        if b == 'out_of_state_purchases':
+        # names differ by year (2022 splits the year at October 1): answer by what the input is
+        if 'purchases' in b:
             return round(r.uniform(0, 4000), 2)
-        if b == 'county_tax_pct':
-            return '0.075'
+        if 'pct' in b:
+            return r.choice(['0.075', '0.0725', '0.07'])
         if b == 'other_state_sales_tax':
-            return round(r.uniform(0, 100), 2)
+            return round(r.choice([r.uniform(0, 100), r.uniform(0, 500)]), 2)
         return None
 
     NC_ADDITIONS = ('interest_income_not_nc', 'deferred_gains_opportunity_fund', 'bonus_depreciation_deducted', 'section_179_expense_difference',
@@ -662,6 +663,9 @@ def directed_personas(year, seed, n):
         for d in p.f1099r:
             d['box_2a'] = d['box_1']
         p.ira_mode = '8606'
+        p.f8606.update({'part_1_needed': True, 'part_2_needed': True, 'part_3_needed': False, 'distribution_or_roth_conversion': True,
+                        'net_converted': round(r.uniform(1000, 9000), 2), 'traditional_basis': round(r.uniform(2000, 20000), 2),
+                        'nondeductible_contributions': round(r.uniform(0, 6000), 2), 'year_end_value_non_roth': round(r.uniform(5000, 90000), 2)})
         out.append(('F5d', p))
         # both spouses with an HSA
         p = plain_persona(year, 'MFJ', [round(r.uniform(50000, 90000), 2), round(r.uniform(30000, 60000), 2)], key=f'dirhsa:{seed}:{k}',
